@@ -312,6 +312,52 @@ def main():
             walk(b.get('thir'), g)
         json.dump(sites, open(sys.argv[3], 'w'), indent=1)
         print(len(sites), 'sites')
+    elif cmd == 'enumerate-logic':
+        # one operand of `a && b` / `a || b` dropped; half-open ranges made inclusive (`a..b` -> `a..=b`)
+        F = Facts(sys.argv[2])
+        src = Src('/repo')
+        sites, seen = [], set()
+
+        def add(f, a, b, new, desc, fn):
+            t, _ = src.text(f)
+            if (f, a, b, new) in seen or t[a:b] == new:
+                return
+            seen.add((f, a, b, new))
+            sites.append({'file': f, 'start': a, 'end': b, 'old': t[a:b], 'new': new, 'desc': desc, 'fn': fn, 'line': t.count('\n', 0, a) + 1})
+        for b in F.bodies:
+            if not F.is_hand_written(b) or b['def_kind'] not in ('Fn', 'AssocFn', 'Closure'):
+                continue
+            root = F.closure_root(b) or b
+            fn = strip_generics(root['path'])
+            if 'tests::' in fn or fn.startswith('dev_tools'):
+                continue
+
+            def g(n, fn=fn):
+                try:
+                    if n.get('k') == 'Logical' and not n.get('exp') and not n['l'].get('exp') and not n['r'].get('exp'):
+                        f, a0, a1 = src.span(n['sp'])
+                        fl, l0, l1 = src.span(n['l']['sp'])
+                        fr, r0, r1 = src.span(n['r']['sp'])
+                        t, _ = src.text(f)
+                        if f == fl == fr:
+                            add(f, a0, a1, t[l0:l1], 'keep left operand of `%s`' % t[a0:a1].replace('\n', ' ')[:60], fn)
+                            add(f, a0, a1, t[r0:r1], 'keep right operand of `%s`' % t[a0:a1].replace('\n', ' ')[:60], fn)
+                    if n.get('k') == 'Adt' and n.get('adt') == 'std::ops::Range' and len(n.get('fields', [])) == 2:
+                        fs = sorted(n['fields'], key=lambda x: x.get('idx', 0))
+                        e0, e1 = fs[0]['e'], fs[1]['e']
+                        if e0.get('sp') and e1.get('sp'):
+                            f, a0, a1 = src.span(e0['sp'])
+                            f2, b0, b1 = src.span(e1['sp'])
+                            t, _ = src.text(f)
+                            mid = t[a1:b0]
+                            if f == f2 and mid.strip().strip('()') == '..':
+                                i = mid.find('..')
+                                add(f, a1 + i, a1 + i + 2, '..=', 'range `%s..%s` made inclusive' % (t[a0:a1][:20], t[b0:b1][:20]), fn)
+                except Exception:
+                    pass
+            walk(b.get('thir'), g)
+        json.dump(sites, open(sys.argv[3], 'w'), indent=1)
+        print(len(sites), 'sites')
     elif cmd == 'enumerate-swaps':
         sites = enumerate_swaps(sys.argv[2])
         json.dump(sites, open(sys.argv[3], 'w'), indent=1)
